@@ -7,11 +7,15 @@
 
    E extend, S sign (all bits flipped), D digits little-endian, P padding.
    "Always use the least amount of bytes possible ... The padding must always be
-   zeroed." The value of an integer with non-zero padding is *not defined* by the
-   document (the reference implementation "interprets the padding as part of the
-   number, which leads to weird results"): Decode reports pad = TRUE and callers
-   make no prediction about such input.  TLC integers are 32 bit: nothing below
-   leaves -2^31 .. 2^31-1. *)
+   zeroed." "The bits of the final integer are the `bits` fields combined": the
+   document's value of an integer with non-zero padding is the value of its bits
+   fields (v below, padding ignored); it adds that the reference implementation
+   "interprets the padding as part of the number, which leads to weird results".
+   libtw2 (packer/src/lib.rs read_int) warns NonZeroIntPadding when any of the four
+   bits above the last digits is set and computes ((b5 & 0x7f) as i32) << 27: the
+   lowest padding bit lands on bit 31, the others fall off (vimpl below; the same
+   reading as spec/varint/VarInt.tla of C08; vimpl = v whenever that bit is clear).
+   TLC integers are 32 bit: nothing below leaves -2^31 .. 2^31-1. *)
 EXTENDS Integers, Sequences
 
 MinInt == -2147483647 - 1
@@ -30,7 +34,8 @@ Encode(x) == LET m == Payload(x) IN
 
 (* Decode the integer that starts at index p of b (1-based).
    [r |-> "end"]                      the sequence ends inside the integer
-   [r |-> "ok", v, n, over, pad]      value, bytes used, overlong?, non-zero padding? *)
+   [r |-> "ok", v, vimpl, n, over, pad]   documented value, libtw2's value, bytes used,
+                                          overlong?, non-zero padding? *)
 DecodeAt(b, p) ==
   IF p > Len(b) THEN [r |-> "end"] ELSE
   LET n == CHOOSE k \in 1..5 : /\ \A j \in 1..(k - 1) : p + j - 1 <= Len(b) /\ b[p + j - 1] >= 128
@@ -44,11 +49,14 @@ DecodeAt(b, p) ==
                   + (IF n >= 4 THEN (B(4) % 128) * 1048576 ELSE 0)
          hi4   == IF n = 5 THEN B(5) % 16 ELSE 0
          mag   == lo27 + hi4 * 134217728
-     IN [r    |-> "ok",
-         v    |-> IF sign = 1 THEN -mag - 1 ELSE mag,
-         n    |-> n,
-         over |-> n > 1 /\ B(n) = 0,
-         pad  |-> n = 5 /\ (B(5) % 128) \div 16 # 0]
+         padb  == IF n = 5 THEN B(5) \div 16 ELSE 0            \* PPPP
+         raw   == IF padb % 2 = 1 THEN (mag - 1073741824) - 1073741824 ELSE mag
+     IN [r     |-> "ok",
+         v     |-> IF sign = 1 THEN -mag - 1 ELSE mag,
+         vimpl |-> IF sign = 1 THEN -1 - raw ELSE raw,
+         n     |-> n,
+         over  |-> n > 1 /\ B(n) = 0,
+         pad   |-> padb # 0]
 
 Decode(b) == DecodeAt(b, 1)
 
@@ -62,5 +70,23 @@ RoundTrip(x) == LET e == Encode(x) d == Decode(e) IN
 ASSUME \A x \in VarIntBoundaries : RoundTrip(x)
 ASSUME Encode(0) = <<0>> /\ Encode(1) = <<1>> /\ Encode(-1) = <<64>> /\ Encode(64) = <<128, 1>>
 ASSUME Decode(<<128>>).r = "end" /\ Decode(<<>>).r = "end"
-ASSUME Decode(<<128, 0>>).over /\ Decode(<<128, 128, 128, 128, 16>>).pad
+ASSUME Decode(<<128, 0>>).over /\ Decode(<<128, 128, 128, 128, 16>>).pad /\ Decode(<<128, 128, 128, 128, 128>>).pad
+\* the two padding examples of the repository's unit tests (int_quirk1, int_quirk2), and one where
+\* the padding does not reach the value
+ASSUME Decode(<<255, 255, 255, 255, 255>>).vimpl = 0 /\ Decode(<<191, 255, 255, 255, 255>>).vimpl = -1
+ASSUME Decode(<<255, 255, 255, 255, 255>>).v = MinInt /\ Decode(<<191, 255, 255, 255, 255>>).v = MaxInt
+ASSUME LET d == Decode(<<133, 128, 128, 128, 96>>) IN d.pad /\ d.v = 5 /\ d.vimpl = 5 /\ ~d.over
+
+(* The five-byte form of x with the given padding bits (0..15); pad = 0 gives the overlong
+   five-byte form when x needs fewer bytes. Overlong(x): the shortest form followed by one
+   more (zero) digit byte. *)
+FiveBytes(x, pad) == LET m == Payload(x) IN
+  << (m % 64) + (IF x < 0 THEN 64 ELSE 0) + 128, ((m \div 64) % 128) + 128, ((m \div 8192) % 128) + 128,
+     ((m \div 1048576) % 128) + 128, ((m \div 134217728) % 16) + 16 * pad >>
+Overlong(x) == LET e == Encode(x) IN
+               IF Len(e) = 5 THEN e ELSE [e EXCEPT ![Len(e)] = @ + 128] \o <<0>>
+ASSUME \A x \in {0, 1, -1, 63, 64, -65, 8191, 1048576, MaxInt, MinInt} :
+         /\ \A pd \in {2, 4, 8, 14} : LET d == Decode(FiveBytes(x, pd)) IN d.v = x /\ d.vimpl = x /\ d.pad /\ d.n = 5
+         /\ LET d == Decode(FiveBytes(x, 1)) IN d.v = x /\ d.pad /\ d.vimpl # x
+         /\ LET d == Decode(Overlong(x)) IN d.v = x /\ d.vimpl = x /\ ~d.pad /\ (d.over <=> Len(Encode(x)) < 5)
 =============================================================================
